@@ -232,6 +232,49 @@ def run(prog: Program, res: Result) -> None:  # noqa: PLR0912, PLR0915
                 else:
                     res.ok("C09.R3", site, what, "no in-place mutation through any instance")
     res.stats["class_level_containers"] = n_cc
+    # … nor through an alias: a class-level container passed as an argument must not be mutated in place by the callee
+    for cfull in fam:
+        ci = prog.resolve_abs(cfull)
+        if not isinstance(ci, ClassInfo):
+            continue
+        for attr, v in ci.class_attrs.items():
+            if not (isinstance(v, (ast.Set, ast.List, ast.Dict)) or (isinstance(v, ast.Call) and isinstance(v.func, ast.Name) and v.func.id in ("set", "list", "dict"))):
+                continue
+            for m in ci.methods.values():
+                for c in ast.walk(m.node):
+                    if not isinstance(c, ast.Call):
+                        continue
+                    callee = c.func.attr if isinstance(c.func, ast.Attribute) else (c.func.id if isinstance(c.func, ast.Name) else None)
+                    if callee is None:
+                        continue
+                    passed: list[tuple[int | None, str | None]] = []
+                    for i, a in enumerate(c.args):
+                        if is_self_attr(a, attr):
+                            passed.append((i, None))
+                    for k in c.keywords:
+                        if is_self_attr(k.value, attr):
+                            passed.append((None, k.arg))
+                    for pos, kw in passed:
+                        for g in prog.all_functions():
+                            if g.name != callee:
+                                continue
+                            params = [p for p in g.params() if p not in ("self", "cls")]
+                            pname = kw if kw in params else (params[pos] if pos is not None and pos < len(params) else None)
+                            if pname is None:
+                                continue
+                            what = f"{g.qualname}({pname}=self.{attr}) does not mutate the class-level container in place"
+                            bad = None
+                            for n in ast.walk(g.node):
+                                if isinstance(n, ast.AugAssign) and isinstance(n.target, ast.Name) and n.target.id == pname:
+                                    bad = n
+                                if isinstance(n, ast.Call) and isinstance(n.func, ast.Attribute) and n.func.attr in MUTATORS and isinstance(n.func.value, ast.Name) and n.func.value.id == pname:
+                                    bad = n
+                                if isinstance(n, ast.Subscript) and isinstance(n.ctx, (ast.Store, ast.Del)) and isinstance(n.value, ast.Name) and n.value.id == pname:
+                                    bad = n
+                            if bad is not None:
+                                res.fail("C09.R3", file=g.file, line=bad.lineno, qualname=g.qualname, construct=f"{pname} (bound to {ci.name}.{attr}) mutated: {norm(bad, 60)}", message=f"{ci.name}.{m.name} passes the class-level container {ci.name}.{attr} as `{pname}` and {g.qualname} mutates it in place (`{norm(bad, 60)}`): the change is visible to every template, environment and later render in the process", what=what)
+                            else:
+                                res.ok("C09.R3", f"{g.file}:{g.node.lineno} {g.qualname}", what, "parameter only read / rebound")
 
     # ------------------------------------------------------------------ R4 clock
     res.rule("C09.R4", "clock/entropy reads occur only inside render-time function bodies: never at module/class level, in default arguments, in __init__/parse of AST or tag classes, or in parse-time functions")
